@@ -215,7 +215,7 @@ def cloud_case(draw):
     if kind == "lattice":
         P = np.asarray(draw(gens.array((k, d), 0.0, 3.0, styles=("int100",))), dtype=float).reshape(k, d)
     else:
-        P = np.asarray(draw(gens.array((k, d), -10.0, 10.0, styles=("raw",))), dtype=float).reshape(k, d)
+        P = np.asarray(draw(gens.array((k, d), -10.0, 10.0, styles=("raw",), tiny=1e-6)), dtype=float).reshape(k, d)
     if kind == "flat":
         # rank-deficient cloud: points in a (d-1)-dimensional subspace through an offset
         P[:, -1] = P[:, :-1] @ np.asarray(draw(gens.array((d - 1,), -1.0, 1.0, styles=("raw",)))) + draw(st.floats(-1, 1))
@@ -255,8 +255,14 @@ def body_cloud(case):
     P = np.asarray(case["P"], dtype=float)
     B = np.asarray(case["B"], dtype=float)
     P0, B0 = P.copy(), B.copy()
-    if float(np.max(np.abs(P))) < 1e-30 or float(np.max(P.max(0) - P.min(0))) < 1e-30:
-        return ["cloud-below-1e-30-skipped"]       # squared distances underflow: outside the explored magnitudes (see DESIGN 8.6)
+    if float(np.max(np.abs(P))) < 1e-20 or float(np.max(P.max(0) - P.min(0))) < 1e-20:
+        return ["cloud-below-1e-20-skipped"]       # squared distances underflow: outside the explored magnitudes (see DESIGN 8.6)
+    span_ = float(np.max(P.max(0) - P.min(0)))
+    dP = np.abs(P[:, None, :] - P[None, :, :])
+    if np.any((dP > 0) & (dP < 1e-9 * span_)):
+        # two points that differ by less than 1e-9 of the cloud's size in some coordinate: a hull that is "full-dimensional" by
+        # 1e-11 is not geometry any tolerance-based membership test can resolve (C17 snaps such coordinates in its generator)
+        return ["coordinates-differing-below-1e-9-skipped"]
     with calling("dreye.in_hull"):
         got = np.asarray(dreye.in_hull(P, B))
     check(got.shape == (B.shape[0],), "cloud:shape", f"{got.shape}")
